@@ -80,7 +80,7 @@ CLAIMED = {
                      'spec shape in QQ(knots, u, v, control points, weights); basis_function_ders(_one), derivative control points, hodograph constructors, tangent/normal (unit length and orthogonality modulo s*s = x).',
                 note=_B_NOTE + ' A4: math.sqrt by contract.'),
     'C11': dict(category='other', technique='contracts on fitting.*; per-shape exhaustive symbolic execution (symx) with the real LU solve in exact arithmetic',
-                text='Engine A, every size: compute_params_curve starts at 0, ends at 1 and is strictly increasing for distinct consecutive data points; compute_knot_vector; forward/backward substitution solve L y = b, U x = y. Engine B: '
+                text='Engine A, every size: compute_params_curve starts at 0, ends at 1 and is strictly increasing for distinct consecutive data points; compute_knot_vector; forward/backward substitution solve L y = b, U x = y; the Doolittle factorisation behind lu_decomposition gives L U = A for every n. Engine B: '
                      'interpolate_curve/surface: requested degree and C(uk[i]) == Q[i] (S(uk[i],vl[j]) == Q[i][j]) at the chord-length / centripetal parameters; compute_params / compute_knot_vector(2) closed forms; '
                      'approximate_curve: end points interpolated and interior control points satisfy the normal equations rebuilt independently; approximate_surface: corners interpolated.',
                 note=_B_NOTE + ' A4: math.sqrt by contract; A7: a solution of the normal equations minimises the functional. 3-7 data points symbolic/concrete, up to 40 concrete in thorough.'),
@@ -88,8 +88,8 @@ CLAIMED = {
                 text='Engine A, all degrees/sizes: basis functions are a non-negative partition of unity; the curve evaluators keep every coordinate half-space and (rational) homogeneous half-space that contains the '
                      'control points; curve, surface and volume evaluators keep every evaluated point inside the bounds of the degree+1 (per direction) control points ACTIVE on its span (monotone ghost bounding sequences); evaluate_bounding_box contains every control point. Engine B: evaluated point == sum lambda_i * find_ctrlpts points with lambda >= 0 summing to 1, inside bbox, clamped ends, length >= chord.',
                 note=_B_NOTE + ' The upper bound length <= control polygon length is excluded (variation diminishing). A7: triangle inequality.'),
-    'C16': dict(category='other', technique='SMT-discharged VCs (pyvc) for the vector/matrix helpers; per-shape exhaustive symbolic execution (symx) on fully symbolic n x n matrices for LU / solve / inverse / determinant / pivot and for history independence',
-                text='Fully symbolic matrices n = 1..3 (4 thorough): L*U == A, A*x == b, A*inv == I, determinant == Leibniz, P a permutation with mp == P*m; diagonally dominant and collocation matrices: lu_solve returns; '
+    'C16': dict(category='other', technique='SMT-discharged VCs (pyvc) for the vector/matrix helpers, the triangular solves and the Doolittle LU factorisation (every n); per-shape exhaustive symbolic execution (symx) on fully symbolic n x n matrices for LU / solve / inverse / determinant / pivot and for history independence',
+                text='Engine A, every n: _linalg.doolittle / lu_decomposition return unit lower triangular L and upper triangular U with L*U == A row by column (columns whose pivot vanishes excepted, as in the code), forward/backward substitution solve L y = b and U x = y. Engine B: fully symbolic matrices n = 1..3 and one- and two-parameter matrix pencils of size 4 and 5: L*U == A, A*x == b, A*inv == I, determinant == Leibniz, P a permutation with mp == P*m; diagonally dominant and collocation matrices: lu_solve returns; '
                      'after any routine matrix_identity(k) is still the identity, arguments untouched, and every routine still satisfies its contract (history independence); helpers equal their definitions for all sizes (Engine A).',
                 note=_B_NOTE + ' "LU always succeeds on collocation matrices" only on the bounded instances (total positivity not proved).'),
     'C20': dict(category='other', technique='contracts on ray.intersect, is_left, wn_poly, convex_hull, voxelize, find_ctrlpts; per-shape exhaustive symbolic execution (symx) with independent spec predicates',
